@@ -199,17 +199,71 @@ fn c05_unified_sequence_6() {
 }
 
 /// `LineNumbersData::initialize_hunk`: the counters start at the header's start positions (first
-/// entry = old file, last entry = new file, also for merge hunk headers with 3 entries), and the
-/// computation of the gutter width does not overflow for any header numbers.
+/// entry = old file, last entry = new file, also for merge hunk headers with 3 entries); the
+/// gutter is wide enough for every line number the hunk can display (start .. start+length-1 of
+/// every file) and never wider than 20 digits; nothing overflows for any header numbers.
+///
+/// CBMC has no bit-precise `log10`. The stub below is exact where it matters: it returns k for an
+/// argument that is exactly 10^k and a value strictly between k and k+1 for an argument strictly
+/// between 10^k and 10^(k+1), so `floor`/`ceil`/`trunc` of the result behave as for the real
+/// function on every f64 that a usize converts to.
+const P10F: [f64; 20] = [
+    1e0, 1e1, 1e2, 1e3, 1e4, 1e5, 1e6, 1e7, 1e8, 1e9, 1e10, 1e11, 1e12, 1e13, 1e14, 1e15, 1e16,
+    1e17, 1e18, 1e19,
+];
+
 fn log10_stub(x: f64) -> f64 {
-    // f64::log10 is not modelled bit-precisely by CBMC; the oracle below does not depend on the
-    // width, so any value in the range log10 can take on [0, 2^64] is a sound over-approximation.
     if x < 1.0 {
-        return f64::NEG_INFINITY; // only x == 0.0 occurs: the argument is a usize converted to f64
+        return f64::NEG_INFINITY; // only 0.0 occurs below 1: the argument is a usize as f64
     }
-    let r: f64 = kani::any();
-    kani::assume(r >= 0.0 && r <= 19.5); // log10 of [1, 2^64]
-    r
+    let mut k = 0usize;
+    let mut i = 1;
+    while i < 20 {
+        if x >= P10F[i] {
+            k = i;
+        }
+        i += 1;
+    }
+    if x == P10F[k] {
+        k as f64
+    } else {
+        k as f64 + 0.5
+    }
+}
+
+const P10U: [usize; 20] = [
+    1,
+    10,
+    100,
+    1_000,
+    10_000,
+    100_000,
+    1_000_000,
+    10_000_000,
+    100_000_000,
+    1_000_000_000,
+    10_000_000_000,
+    100_000_000_000,
+    1_000_000_000_000,
+    10_000_000_000_000,
+    100_000_000_000_000,
+    1_000_000_000_000_000,
+    10_000_000_000_000_000,
+    100_000_000_000_000_000,
+    1_000_000_000_000_000_000,
+    10_000_000_000_000_000_000,
+];
+
+fn digits(n: usize) -> usize {
+    let mut d = 1;
+    let mut k = 1;
+    while k < 20 {
+        if n >= P10U[k] {
+            d = k + 1;
+        }
+        k += 1;
+    }
+    d
 }
 
 fn init_hunk<const N: usize>() {
@@ -224,20 +278,37 @@ fn init_hunk<const N: usize>() {
     data.initialize_hunk(&v, String::new());
     assert!(data.line_number[Left] == shadow[0].0, "old-file counter starts at the first header entry");
     assert!(data.line_number[Right] == shadow[N - 1].0, "new-file counter starts at the last header entry");
+    let w = data.hunk_max_line_number_width;
+    assert!(w >= 1 && w <= 20, "gutter width between 1 and 20 digits");
+    for i in 0..N {
+        let (start, len) = shadow[i];
+        // numbers below 2^53 convert to f64 exactly; above that the conversion may round up to
+        // the next power of ten, which only makes the gutter wider
+        if len >= 1 {
+            let last = start.saturating_add(len - 1);
+            assert!(w >= digits(last), "gutter is wide enough for the last line number of every file in the hunk");
+        }
+        if start < (1usize << 53) && len < (1usize << 52) {
+            assert!(w <= 20 && (i > 0 || N > 1 || w <= digits(start + len)), "gutter no wider than the digits of start+length when that is the only entry");
+        }
+    }
+    kani::cover!(shadow[N - 1].0 == 9_999 && shadow[N - 1].1 == 1 && shadow[0].0 < 100 && shadow[0].1 < 10, "hunk ends exactly at line 10000");
+    kani::cover!(w == 1, "one-digit gutter");
+    kani::cover!(w == 20, "twenty-digit gutter");
     kani::cover!(true, "end of harness reached");
     std::mem::forget(v);
     std::mem::forget(data);
 }
 
 #[kani::proof]
-#[kani::unwind(5)]
+#[kani::unwind(22)]
 #[kani::stub(f64::log10, log10_stub)]
 fn c05_initialize_hunk_2() {
     init_hunk::<2>();
 }
 
 #[kani::proof]
-#[kani::unwind(5)]
+#[kani::unwind(22)]
 #[kani::stub(f64::log10, log10_stub)]
 fn c05_initialize_hunk_3() {
     init_hunk::<3>();
